@@ -34,6 +34,7 @@ type vClient struct {
 	observers  map[uint16]couchbase.Observer
 	shutdown   bool
 	isOpen     [vNV]bool // vBucket stream currently open at the server
+	dropOnClose [vNV]bool // the vBucket's connection drops while its stream is being closed: End carries "socket closed"
 }
 
 func (c *vClient) GetDcpAgentConfigSnapshot() (*gocbcore.ConfigSnapshot, error) {
@@ -65,7 +66,11 @@ func (c *vClient) CloseStream(vbID uint16) error {
 	c.isOpen[vbID] = false
 	yield()
 	if obs, ok := c.observers[vbID]; ok {
-		spawnEnv(func() { obs.End(models.DcpStreamEnd{VbID: vbID}, gocbcore.ErrDCPStreamClosed) })
+		endErr := gocbcore.ErrDCPStreamClosed
+		if c.dropOnClose[vbID] {
+			endErr = gocbcore.ErrSocketClosed
+		}
+		spawnEnv(func() { obs.End(models.DcpStreamEnd{VbID: vbID}, endErr) })
 	}
 	return nil
 }
